@@ -165,7 +165,9 @@ pub fn gen_inputs(ch: &mut Choices, al: &AL, n: usize) -> Vec<String> {
     let mut v = vec![];
     for _ in 0..n {
         let mut s = String::new();
-        let parts = ch.range(0, 8);
+        // specifications of the state-stack stratum only have one-letter rules: long inputs
+        let one_letter = al.rules.iter().all(|r| matches!(r.re, crate::genr::lexspec::Re::Lit { .. }));
+        let parts = if one_letter { ch.range(0, 24) } else { ch.range(0, 8) };
         for _ in 0..parts {
             match ch.weighted(&[6, 3, 1]) {
                 0 => {
